@@ -206,6 +206,15 @@ impl<'a> Run<'a> {
         self.aborted |= c == "panic";
     }
 
+    /// rewind_to_chain_state(target) on the unchanged chain (C15 queue histories)
+    pub fn rewind(&mut self, target: u32) {
+        let res = self.w.rewind_cs(&self.chain, target);
+        let (c, e) = res_class(&res);
+        let post = self.post();
+        self.out.emit(&json!({"a": "rewind", "target": self.w.rel(target), "res": c, "err": e, "post": post}));
+        self.aborted |= c == "panic";
+    }
+
     /// queue_rescans(ranges, priority) (C15)
     pub fn rescan(&mut self, ranges: &[(u32, u32)], prio: i64) {
         let res = self.w.queue_rescans(ranges, prio);
